@@ -8,6 +8,8 @@ import (
 	"strconv"
 	"sync"
 	"time"
+
+	"github.com/anthdm/hollywood/safemap"
 )
 
 // Remoter is an interface that abstract a remote that is tied to an engine.
@@ -32,6 +34,8 @@ type Engine struct {
 	address     string
 	remote      Remoter
 	eventStream *PID
+	// processes that are unregistered already but have not handled Stopped yet.
+	stopping *safemap.SafeMap[string, *process]
 }
 
 // EngineConfig holds the configuration of the engine.
@@ -53,7 +57,7 @@ func (config EngineConfig) WithRemote(remote Remoter) EngineConfig {
 
 // NewEngine returns a new actor Engine given an EngineConfig.
 func NewEngine(config EngineConfig) (*Engine, error) {
-	e := &Engine{}
+	e := &Engine{stopping: safemap.New[string, *process]()}
 	e.Registry = newRegistry(e) // need to init the registry in case we want a custom deadletter
 	e.address = LocalLookupAddr
 	if config.remote != nil {
@@ -236,6 +240,13 @@ func (e *Engine) sendPoisonPill(ctx context.Context, graceful bool, pid *PID) co
 	// deadletter - if we didn't find a process, we will broadcast a DeadletterEvent
 	proc := e.Registry.get(pid)
 	if proc == nil {
+		// The process can be unregistered and still be handling Stopped: the
+		// context must not be done before it is.
+		if pid != nil {
+			if proc, ok := e.stopping.Get(pid.ID); ok && proc.awaitStop(cancel) {
+				return ctx
+			}
+		}
 		e.BroadcastEvent(DeadLetterEvent{
 			Target:  pid,
 			Message: pill,
